@@ -9,5 +9,25 @@ TEXTS = {
   "level": "exploration: every public bidib_send_* constructor is called with generated node addresses (depth 0-3), scalars over 0..255 with documented range boundaries weighted up, and payloads of length 0/max/max+1 in exact-size heap buffers; the wire delta is decoded independently and must be nothing (argument out of range) or exactly one message with the reference encoding, type < 0x80, length byte <= 127",
   "note": "documented ranges and encodings are transcribed in harness/sends.cpp from include/lowlevel/*.h and the BiDiB message tables; where a header is silent the pinned behaviour (accept set) is the reference; bidib_send_sys_reset is a dialogue and is covered by C20",
  },
+ "C02": {
+  "technique": "property-based testing (rapidcheck) with fault injection: generated packet streams with constructed CRC-failing corruption (bit flips, dropped/inserted bytes, truncation, garbage, extra delimiters), generated read chunking, and sender->receiver round trips; oracle = reference encoder/decoder",
+  "level": "fault_enumeration: streams of well-formed packets (all type codes, depth 0-3, escape-heavy payloads, arbitrary sequence numbers) interleaved with six classes of corruption and generated read-poll chunking; the messages surfacing through bidib_read_message must be exactly those of the intact packets, in order, byte for byte; second generator feeds the library's own sender output back",
+  "note": "trusts ref/codec.hpp; corrupted fragments are constructed to fail the CRC (CRC-valid malformed input is C12); debug mode is used because there every message surfaces",
+ },
+ "C03": {
+  "technique": "model-based property-based testing (rapidcheck): generated send/answer/loss/time histories against a two-sided reference flow-control model (permissive lower bound for safety, FIFO upper bound for liveness)",
+  "level": "exploration: generated histories over 1-5 nodes with requests of every response size, matching / alternative / unrelated / duplicate answers and lost responses (virtual-time expiry); budget safety, FIFO exactly-once and never-stranded obligations are checked after every event and after a final drain",
+  "note": "trusts the frozen response-size table ref/resp.hpp and the two-sided model in props/flow.cpp; obligations only at library activations; single sender thread (sender/receiver races are exercised by C05 and C10)",
+ },
+ "C04": {
+  "technique": "model-based property-based testing (rapidcheck): generated stall/unstall notices (incl. the interface, nested, repeated) interleaved with sends and answers against the reference flow model",
+  "level": "exploration: node trees of depth 0-3 with ancestor relations; no message may reach the wire while the node or an ancestor is stalled, held traffic must be released in submission order exactly once when the last blocking stall clears and the budget has room",
+  "note": "as C03; the harness flushes before each stall notice",
+ },
+ "C05": {
+  "technique": "property-based testing (rapidcheck) over thread schedules: 2-6 sender threads plus the receiver releasing deferred messages, scheduler-owned preemption lists / seeded random preemption; oracle = consecutive per-node sequence numbers in decoded wire order",
+  "level": "exploration: generated thread plans (shared and private nodes, budget-deferred messages released by injected answers, 255->1 wrap prologue) under generated schedules with preemption at every lock operation; per destination node the decoded wire must carry 1,2,..,255,1,..",
+  "note": "interleavings inside critical sections are not explored (lock-granularity scheduler); numbering after system reset is checked by the normal-mode properties",
+ },
 }
 NOT_YET = {}
